@@ -19,6 +19,7 @@
 //	gc <G>                                  -> n=.. dg=.. ch=..
 //	reset                                   -> ok                (restart / reopen from the root hash)
 //	get <h> <key>                           -> <value> | none    (historic read at the root of height h)
+//	restore <k>=<v>,...                     -> r=<root> n=.. dg=.. ch=..   (Billet restore into an empty store)
 //	wild                                    -> ok                (the rest of the case is not compared)
 //	sub: p:<key>:<val>  d:<key>  b:<key>=<val|del>,...
 package main
@@ -77,6 +78,10 @@ func runCase(o *hx.Out, f *hx.Flags, k int) {
 	}
 	if k%chainEvery == chainEvery-1 {
 		runChainCase(o, f, k, r)
+		return
+	}
+	if k%11 == 5 {
+		runRestoreCase(o, f, k, r)
 		return
 	}
 	c := combos[r.Intn(len(combos))]
